@@ -3,6 +3,7 @@ import Vanguard.Lemmas.CleanStream
 import Vanguard.Lemmas.ReframeStream
 import Vanguard.Lemmas.RespStream
 import Vanguard.Lemmas.RespReframe
+import Vanguard.Lemmas.ReframeSplit
 import Vanguard.Model.World
 /-!
   C01 — Messages arrive intact across every protocol, codec and compression pairing.
@@ -170,6 +171,32 @@ theorem client_receives_exactly_the_messages_reframed (w : World) (tb : Tables) 
     (fs ≠ [] → (ewWrite w tb st {} (framesBytes fs)).1.sink.flushedN
                 = some (ewWrite w tb st {} (framesBytes fs)).1.sink.items.length) :=
   ewWrite_clean_stream w tb se cc st fs hb hse hcc hok
+
+/-- **... however the backend splits its output across `Write` calls** (re-framing path): for any sequence
+    of pieces - cut inside envelopes, inside payloads, between messages, empty ones - whose concatenation is a
+    sequence of legal frames, every `Write` succeeds and the client's connection carries exactly those
+    payloads, untouched, each under the client's own envelope, in order (`ewWrites` = the calls one after the
+    other; `Lemmas/ReframeSplit.lean`: the writer between two calls is a function of the bytes seen so far). -/
+theorem client_receives_exactly_the_messages_reframed_any_split (w : World) (tb : Tables) (se cc : Enveloper) (st : St)
+    (fs : List Frame) (pieces : List Bytes)
+    (hb : st.rw.buf = none) (hse : st.op.serverEnveloper = some se) (hcc : st.op.clientEnveloper = some cc)
+    (hok : ∀ x ∈ fs, x.ok se st.op.conf.maxMsg) (hp : pieces.flatten = framesBytes fs) :
+    ∃ st' e', ewWrites w tb st { initialized := true, writingEnvelope := true, remaining := 5 } pieces = (st', e', false, false) ∧
+      rawBytes st'.sink.items = rawBytes st.sink.items ++ respReframedAll se cc fs :=
+  ewWrites_clean_stream w tb se cc st fs pieces hb hse hcc hok hp
+
+/-- The writer state the theorem starts from is the fresh writer after `maybeInit`. -/
+theorem fresh_writer_is_initialised (w : World) (tb : Tables) (se : Enveloper) (st : St) (d : Bytes)
+    (hse : st.op.serverEnveloper = some se) :
+    ewWrite w tb st {} d = ewWrite w tb st { initialized := true, writingEnvelope := true, remaining := 5 } d :=
+  ewWrite_fresh w tb se st d hse
+
+/-- Non-vacuity (kernel-evaluated): the stream `00 00000002 07 08 | 00 00000000` written as `00 00`, `00 00 02 07`,
+    ``, `08 00 00 00 00 00` reaches a gRPC-Web client as the same bytes, no error. -/
+def splitDemo := ewWrites fakeWorld {} { dSt with op := { dOp with scodec := rawName } }
+  { initialized := true, writingEnvelope := true, remaining := 5 } [[0, 0], [0, 0, 2, 7], [], [8, 0, 0, 0, 0, 0]]
+example : (rawBytes splitDemo.1.sink.items, splitDemo.2.2.1, splitDemo.2.2.2) = ([0, 0, 0, 0, 2, 7, 8, 0, 0, 0, 0, 0], false, false) := by
+  decide +kernel
 
 /-- Non-vacuity (kernel-evaluated): the frames `00 00000002 | 07 08` and an empty one are legal for a gRPC
     backend under the limit of `dSt`, and re-framed for a gRPC-Web client they keep their payloads. -/
